@@ -1,17 +1,14 @@
 //go:build verif
 
-// Command zzprobe is a scratch probe (not part of any check): stalled subscribers on two channels, publishers with quotas around the filling point.
+// Command zzprobe is a scratch probe (not part of any check): forwarded proposals in lossy-posts mode.
 package main
 
 import (
 	"fmt"
-	"math/rand"
 	"os"
-	"strings"
-	"sync"
 	"time"
 
-	"rgverif/internal/procs"
+	"rgverif/internal/cluster"
 	"rgverif/internal/respc"
 )
 
@@ -19,53 +16,41 @@ func main() {
 	dir := "/dev/shm/zzprobe-dir"
 	os.RemoveAll(dir)
 	defer os.RemoveAll(dir)
-	srv, err := procs.Start(procs.Opts{Dir: dir, Port: procs.FreePorts(1)[0], ShardNum: 8, Databases: 1})
+	c, err := cluster.New(dir, 3, false, nil)
 	if err != nil {
 		panic(err)
 	}
-	defer srv.Kill()
-	pad := strings.Repeat("x", 256*1024)
-	var wg sync.WaitGroup
-	var mu sync.Mutex
-	hung := 0
-	var keep []*respc.Client
-	for round := 0; round < 24; round++ {
-		s, _ := respc.Dial(srv.Addr, 10*time.Second)
-		keep = append(keep, s)
-		for i := 0; i < 2; i++ {
-			_ = s.Send(respc.Cmd("SUBSCRIBE", fmt.Sprintf("r%d-ch%d", round, i)))
-			_, _ = s.RecvTimeout(2 * time.Second)
-		}
-		for p := 0; p < 2; p++ {
-			wg.Add(1)
-			go func(round, p int) {
-				defer wg.Done()
-				r := rand.New(rand.NewSource(int64(round*7 + p)))
-				c, _ := respc.Dial(srv.Addr, 15*time.Second)
-				defer c.Close()
-				quota := 1 + round + r.Intn(1)
-				if p == 1 {
-					quota = 2000
-				}
-				for i := 0; i < quota; i++ {
-					v, err := c.Do("PUBLISH", fmt.Sprintf("r%d-ch%d", round, p), pad)
-					if err == nil && v.Int == 0 {
-						return
-					}
-					if err != nil {
-						mu.Lock()
-						hung++
-						mu.Unlock()
-						fmt.Printf("round %d publisher %d message %d of %d: %v\n", round, p, i, quota, err)
-						return
-					}
-				}
-			}(round, p)
-		}
+	defer c.Stop()
+	if err := c.StartAll(); err != nil {
+		panic(err)
 	}
-	wg.Wait()
-	fmt.Println("hung publishers:", hung)
-	for _, s := range keep {
-		s.Close()
+	fmt.Println("writable", c.WaitAllWritable(90*time.Second))
+	time.Sleep(time.Second)
+	dropped := c.LossyPosts()
+	time.Sleep(500 * time.Millisecond)
+	for id := 1; id <= 3; id++ {
+		cl, err := respc.Dial(c.Nodes[id-1].Addr(), 3*time.Second)
+		if err != nil {
+			fmt.Println("dial", id, err)
+			continue
+		}
+		cl.Timeout = 5 * time.Second
+		for k := 0; k < 3; k++ {
+			t0 := time.Now()
+			v, err := cl.Do("INCR", "probe")
+			fmt.Printf("node %d INCR -> %s %v after %v; dropped responses %d, proposals %d\n", id, v.String(), err, time.Since(t0).Round(time.Millisecond), dropped(), c.DroppedProposals())
+			if err != nil {
+				break
+			}
+		}
+		cl.Close()
+	}
+	for _, l := range c.LinkStats() {
+		fmt.Println(l)
+	}
+	for id := 1; id <= 3; id++ {
+		for _, l := range c.Grep(id, []string{"became leader", "dropped", "no leader", "lost leader"}, 200, 4) {
+			fmt.Println(id, l)
+		}
 	}
 }
